@@ -343,6 +343,30 @@ class Verdict:
         return 0
 
 
+def generic_replay(path, limit=5):
+    """re-runs the stored failing inputs on the CURRENT working tree and prints what the library returns now, next to what the check
+    expected / observed when it reported the violation.  Exit status 1: the judgement itself is made by the check (`./check Cxx`)."""
+    d = json.load(open(path))
+    print(f"{d['property']}: {d['total']} violation(s) recorded; categories: " + json.dumps({k: v["n"] for k, v in d.get("categories", {}).items()})[:600])
+    for v in d["violations"][:limit]:
+        ddl = v.get("ddl")
+        print("-" * 100)
+        for k in ("what", "problem", "position", "skeleton", "mode", "paths", "history", "schedule", "abstract"):
+            if k in v:
+                print(f"{k}: {json.dumps(v[k], default=repr)[:400]}")
+        if isinstance(ddl, str):
+            run = dict(v.get("run") or {})
+            if "mode" in v and "output_mode" not in run and isinstance(v["mode"], str):
+                run["output_mode"] = v["mode"]
+            out = _do_parse((ddl, v.get("ctor") or {}, run))
+            print("ddl:\n" + ddl[:1500])
+            print("now returns: " + json.dumps(jnorm(list(out)), default=repr)[:1500])
+        for k in ("expected", "observed"):
+            if k in v:
+                print(f"{k} (at report time): " + json.dumps(v[k], default=repr)[:800])
+    return 1
+
+
 def _path_match(pat, path):
     if pat == "*":
         return True
